@@ -226,8 +226,16 @@ def loop_bound_rule(F, rep, rule="D.loop-bound"):
         while body.get("k") == "Block" and not body.get("stmts") and body.get("tail") is not None:
             body = body["tail"]
         first = body if body.get("k") == "If" else ((body.get("stmts") or [{}])[0].get("e") if body.get("k") == "Block" and body.get("stmts") else (body.get("tail") if body.get("k") == "Block" else None))
+        negate = False
         if isinstance(first, dict) and first.get("k") == "If" and first.get("else") is not None and any(x.get("k") == "Break" for x in tir.walk(first["else"])):
             cond = first["cond"]
+        elif isinstance(first, dict) and first.get("k") == "If" and first.get("else") is None:
+            # `loop { if EXIT { break; } .. }`: the loop runs while !EXIT
+            tb = first["then"]
+            only = [s_ for s_ in (tb.get("stmts", []) if tb.get("k") == "Block" else [])] + ([tb.get("tail")] if tb.get("k") == "Block" and tb.get("tail") is not None else [])
+            if len(only) == 1 and strip(only[0].get("e") if only[0].get("k") == "Expr" else only[0]).get("k") == "Break":
+                cond = first["cond"]
+                negate = True
         atoms = set()
         ok = [cond is not None]
 
@@ -257,7 +265,7 @@ def loop_bound_rule(F, rep, rule="D.loop-bound"):
                 l, r = r, l
             atoms.add((op, str(l).split(".")[-1], str(r).split(".")[-1]))
         if cond is not None:
-            disj(cond, False)
+            disj(cond, negate)
         ok = ok[0]
         want = {("Eq", "raw_len", "0"), ("Lt", "bytes_read", "raw_len")}
         rep.ob(rule, ok and atoms == want, SLP_READ, "event-loop", "the event loop must run exactly while `raw_len == 0 || bytes_read < raw_len`; its condition is %s" % sorted(atoms),
